@@ -62,6 +62,10 @@ def enumerate_cases(tier: str):
             # every parked key re-sent while the flush is under way (more pending commands than one wake started with)
             yield {"version": version, "parked": 4, "other_parked": 0, "senders": [[0, True], [1, True], [2, True]]}
             yield {"version": version, "parked": 3, "other_parked": 1, "senders": [[0, True], [0, True], [3, True]]}
+            yield {"version": version, "parked": 2, "other_parked": 0, "senders": [[0, True], [0, True, "dup"]]}
+            yield {"version": version, "parked": 1, "other_parked": 0, "senders": [[0, True], [0, True, "dup"], [0, True]]}
+            for senders in ([[0, True]], [[1, True]], [[1, True], [0, True]], [[3, True], [1, False]]):
+                yield {"version": version, "parked": 2, "other_parked": 0, "senders": senders, "represented": True}
     else:
         spaces = [(v, k, ns, other) for v in ("2.1", "2.2") for k in (1, 2, 3, 4) for ns in (1, 2, 3) for other in (0, 1)]
         spaces = [s for s in spaces if not (s[0] == "2.2" and s[2] == 3 and s[1] > 2)]
@@ -69,16 +73,20 @@ def enumerate_cases(tier: str):
         opts = _sender_options(k)
         for combo in itertools.combinations_with_replacement(opts, ns):
             yield {"version": version, "parked": k, "other_parked": other, "senders": [[key, buf] for key, buf in combo]}
+            if tier == "thorough" and ns <= 2 and k <= 3 and other == 0:
+                yield {"version": version, "parked": k, "other_parked": other, "senders": [[key, buf] for key, buf in combo], "represented": True}
+                yield {"version": version, "parked": k, "other_parked": other, "senders": [[key, buf, "dup"] for key, buf in combo]}
 
 
 def strategy(tier: str):
-    sender = st.tuples(st.sampled_from((0, 1, 2, 3, "other")), st.booleans()).map(list)
+    sender = st.tuples(st.sampled_from((0, 1, 2, 3, "other")), st.booleans(), st.sampled_from(("new", "new", "dup"))).map(list)
     return st.fixed_dictionaries(
         {
             "version": st.sampled_from(("2.0", "2.1", "2.2")),
             "parked": st.integers(1, 4),
             "other_parked": st.integers(0, 1),
             "senders": st.lists(sender, min_size=1, max_size=3),
+            "represented": st.booleans(),
         }
     )
 
@@ -139,12 +147,16 @@ async def _run_schedule(case: dict, schedule: list[int]) -> tuple[Outcome | None
     gateway, _ = env.make_gateway(version, transport=transport)
     env.install_registry(gateway.nodes, REGISTRY)
     sends: list[dict] = []  # {key, value, inv, comp}
+    listen_tick: list = [None]
 
     async def do_send(key, value, buffer) -> tuple[str, object]:
-        rec = {"key": key, "value": value, "inv": transport.tick(), "comp": None, "buffered": bool(buffer)}
+        rec = {"key": key, "value": value, "inv": transport.tick(), "comp": None, "buffered": bool(buffer), "racing": listen_tick[0] is not None}
         sends.append(rec)
+        calls_before = len(transport.calls)
         result = await env.send(gateway, env.mk_message([key[0], key[1], 1, 0, key[2], value]), buffer)
         rec["comp"] = transport.tick()
+        # parked = the call returned without handing this line to the transport
+        rec["parked"] = not any(line.rstrip("\n").split(";", 5)[5] == value and _key_of(line) == key for _t, line in transport.calls[calls_before:])
         return result
 
     k = case["parked"]
@@ -156,10 +168,20 @@ async def _run_schedule(case: dict, schedule: list[int]) -> tuple[Outcome | None
         return Outcome(ok=True, classes=("diverged-elsewhere",)), [], {}
     transport.gating = True
 
+    if case.get("represented"):
+        # the node presented itself again while commands were parked: it is not flagged sleeping when its wake arrives
+        transport.gating = False
+        await env.rx(gateway, "1;255;0;0;17;2.0\n")
+        transport.calls.clear()
+        transport.gating = True
     specs = []
-    for idx, (kref, buf) in enumerate(case["senders"]):
+    for idx, sender in enumerate(case["senders"]):
+        kref, buf = sender[0], sender[1]
         key = OTHER_KEY if kref == "other" else NODE1_KEYS[kref]
-        specs.append((key, f"s{idx}", buf))
+        value = f"s{idx}"
+        if len(sender) > 2 and sender[2] == "dup" and kref != "other" and kref < k:
+            value = f"p{kref}"  # the same value as the parked (possibly in-flight) command, in a new Message object
+        specs.append((key, value, buf))
     listener = None
     faults_left = [int(case.get("faults", 0))]
     info_faults: list[int] = []
@@ -191,6 +213,7 @@ async def _run_schedule(case: dict, schedule: list[int]) -> tuple[Outcome | None
         kind, arg = enabled[choice]
         trace.append(f"{kind}{'' if arg is None else arg}")
         if kind == "listen":
+            listen_tick[0] = transport.tick()
             listener = asyncio.ensure_future(env.rx(gateway, f"1;255;3;0;{wake_type};5\n"))
         elif kind == "start":
             key, value, buf = specs[arg]
@@ -251,8 +274,9 @@ async def _run_schedule(case: dict, schedule: list[int]) -> tuple[Outcome | None
         for value in set(got):
             if got.count(value) > sum(1 for r in recs if r["value"] == value):
                 return fail("value-written-twice", where), factors, info
-        for rec in recs:
-            if not rec["buffered"] and got.count(rec["value"]) != 1 and not info_faults:
+        for value in {r["value"] for r in recs if not r["buffered"]}:
+            n_direct = sum(1 for r in recs if r["value"] == value and not r["buffered"])
+            if got.count(value) < n_direct and not info_faults:
                 return fail("direct-send-not-written", where), factors, info
         # last-writer-wins among the sends that went through the buffer (a send with buffering
         # disabled bypasses it by request and does not cancel a parked command, also sequentially)
@@ -262,8 +286,10 @@ async def _run_schedule(case: dict, schedule: list[int]) -> tuple[Outcome | None
             continue
         if not got_buffered:
             return fail("update-lost:never-written", where), factors, info
-        last = next(r for r in buffered if r["value"] == got_buffered[-1])
-        newer = [r["value"] for r in buffered if r is not last and r["inv"] > last["comp"]]
+        last = max((r for r in buffered if r["value"] == got_buffered[-1]), key=lambda r: r["comp"])
+        # a newer send supersedes the last written value if it went through the buffer or raced with the flush; one that was
+        # written directly before the wake even arrived (node not flagged sleeping then) is sequential history, judged by C07
+        newer = [r["value"] for r in buffered if r is not last and r["inv"] > last["comp"] and (r["parked"] or r["racing"])]
         if newer:
             return fail("update-lost:stale-last-write", where + f"; {newer} were sent after {got_buffered[-1]!r} completed"), factors, info
     return None, factors, info
